@@ -523,7 +523,11 @@ func TestExhaustive(t *testing.T) {
 					batch = nil
 				}
 			}
-			enumerate(depthAll, 6, false, gen)
+			dAll := depthAll
+			if run.Thorough() && cb.nPub == 3 {
+				dAll-- // budget: the three-address configurations enumerate all sequences one level shallower
+			}
+			enumerate(dAll, 6, false, gen)
 			enumerate(depthEff, 6, true, gen)
 			if len(batch) > 0 {
 				ch <- batch
@@ -539,6 +543,9 @@ func TestExhaustive(t *testing.T) {
 	})
 	run.Count("exhaustive_histories", total)
 	run.Extra("exhaustive_depth_all_sequences", depthAll)
+	if run.Thorough() {
+		run.Extra("exhaustive_depth_all_sequences_three_address_configurations", depthAll-1)
+	}
 	run.Extra("exhaustive_depth_sequences_without_noop_release", depthEff)
 	run.Extra("exhaustive_configurations", len(combos))
 }
@@ -578,7 +585,7 @@ func enumerate(depth, maxSubs int, prune bool, fn func(ops []seqOp)) {
 // TestRandomWalks: seeded long histories over all geometries, 1-3 public addresses, up to ~140 subscribers
 // (enough to fill an address completely and spill to the next), with lookups, pool stats, flushes and time jumps.
 func TestRandomWalks(t *testing.T) {
-	walks := run.Pick(400, 5000)
+	walks := run.Pick(400, 3500)
 	all := append(append([]geom(nil), designGeoms...), extraGeoms...)
 	ch := make(chan []*seqCase, 64)
 	go func() {
